@@ -107,6 +107,8 @@ def eq_values(I, st, a, b):
     if isinstance(a, (bool, int, Fraction)) and isinstance(b, (bool, int, Fraction)):
         return a == b
     if isinstance(a, str) or isinstance(b, str):
+        if isinstance(a, Opaque) or isinstance(b, Opaque):
+            raise Unsupported("== between a string and an uninterpreted value (%s)" % (a.desc if isinstance(a, Opaque) else b.desc))
         return isinstance(a, str) and isinstance(b, str) and a == b
     if isinstance(a, tuple) and isinstance(b, tuple):
         return seq_eq(I, st, list(a), list(b))
